@@ -88,6 +88,15 @@ Theorem C04_affine_fit : forall x mean std : list R,
   affine_fit_y x mean std = affine_forward_y x mean std.
 Proof. exact affine_fit_forward. Qed.
 
+(* a history, not one call: the SAME object fitted a second time (Aspire.fit again, refits of a preconditioning flow) is the
+   transform of its last fit - maps and log-Jacobians carry nothing over from the first one *)
+Theorem C04_affine_refit_is_last_fit : forall x mean0 std0 mean std : list R,
+  affine_refit_forward_y x mean0 std0 mean std = affine_forward_y x mean std
+  /\ affine_refit_forward_logj x mean0 std0 mean std = affine_forward_logj x mean std
+  /\ affine_refit_inverse_y x mean0 std0 mean std = affine_inverse_y x mean std
+  /\ affine_refit_inverse_logj x mean0 std0 mean std = affine_inverse_logj x mean std.
+Proof. exact affine_refit_is_last_fit. Qed.
+
 (* ------------------------------------------------------------------------------------------------------ *)
 (* LOGIT                                                                                                  *)
 (* ------------------------------------------------------------------------------------------------------ *)
@@ -261,6 +270,7 @@ Print Assumptions C04_affine_forward_inverse.
 Print Assumptions C04_affine_forward_logj.
 Print Assumptions C04_affine_inverse_logj_neg.
 Print Assumptions C04_affine_fit.
+Print Assumptions C04_affine_refit_is_last_fit.
 Print Assumptions C04_logit_inverse_forward.
 Print Assumptions C04_logit_forward_coordinates.
 Print Assumptions C04_logit_forward_logj.
